@@ -880,7 +880,7 @@ int main(int argc, char **argv) {
 
   long long n = a.thorough() ? 24000 : (a.search() ? 24000 : 2400);
   // object histories follow the single-call cases in the same index space: k = n + history index
-  long long nh = a.thorough() ? 4000 : (a.search() ? 3000 : 1000);
+  long long nh = a.thorough() ? 16000 : (a.search() ? 4000 : 2000);
   if (getenv("C04_HISTORIES")) nh = atoll(getenv("C04_HISTORIES"));
   auto historyRecord = [&](long long hk) {
     vhist::State init;
